@@ -189,7 +189,7 @@ func init() {
 	}
 	registry["C16"] = func() Check {
 		return &SeqCheck{Prop: "C16",
-			Ideal: famFull(3), IdealDeep: famFull(4), IdealProps: []string{"P_C16"}, Probes: append(append([]emitted{}, probeHalf...), probePlanIDs...),
+			Ideal: famFull(3), IdealDeep: famFull(4), IdealProps: []string{"P_C16"}, Probes: append(append(append([]emitted{}, probeHalf...), probePlanIDs...), probeLongHistory...),
 			Proc:     &ProcCheck{Prop: "C16", Scenarios: "PruneScenarios", IdealInvs: []string{"Serializable"}, Only: []string{"C16_prune_truth"}},
 			GenQuick: famFull(2), GenThorough: famFullModes(3), SampleQuick: 60,
 			Sim: with(famFullModes(10), func(m *SeqModel) { m.MaxTasks = 3 }), SimNumQuick: 100, SimNumThorough: 1000}
@@ -225,7 +225,7 @@ func init() {
 	}
 	registry["C12"] = func() Check {
 		return &SeqCheck{Prop: "C12",
-			Ideal: famFull(3), IdealDeep: famFull(4), IdealProps: []string{"P_C12"}, Extra: fileCases, Probes: append(append([]emitted{}, probeTorn...), probeAfterPrune...),
+			Ideal: famFull(3), IdealDeep: famFull(4), IdealProps: []string{"P_C12"}, Extra: fileCases, Probes: append(append(append([]emitted{}, probeTorn...), probeAfterPrune...), probeLongHistory...),
 			GenQuick: famFull(2), GenThorough: famFullModes(3), SampleQuick: 60,
 			Sim: with(famFullModes(10), func(m *SeqModel) { m.MaxTasks = 3 }), SimNumQuick: 100, SimNumThorough: 1000}
 	}
